@@ -11,6 +11,10 @@ pub mod nondet;
 pub mod stubs;
 pub mod bounded;
 pub mod state;
+pub mod refmodel;
+pub mod generated {
+    pub mod templates;
+}
 #[macro_use]
 pub mod registry;
 pub mod bodies;
